@@ -427,6 +427,8 @@ class Emitter {
 					std::string rn = recOfType(VD->getType());
 					if (!rn.empty())
 						d["rec"] = rn;
+					if (VD->getType().getCanonicalType()->isScalarType())
+						d["sc"] = true;    // pointer / arithmetic / enum: one value, no members
 					if (VD->hasInit())
 						d["init"] = SUB(VD->getInit());
 					if (VD->isStaticLocal())
